@@ -183,6 +183,22 @@ def main(argv):
                             fail("tree#%s.copy_well_formed" % how, wit, p)
                         if {id(n) for n in all_nodes(c)} & {id(n) for n in all_nodes(tree)}:
                             fail("tree#%s.no_shared_node" % how, wit, "copy shares a node with the original")
+                        # ... nor the reader items the statements keep (labels and construct names live there): changing the
+                        # copy must leave the original as it was
+                        oi = {id(getattr(n, "item", None)) for n in all_nodes(tree) if getattr(n, "item", None) is not None}
+                        ci = {id(getattr(n, "item", None)) for n in all_nodes(c) if getattr(n, "item", None) is not None}
+                        if oi & ci:
+                            fail("tree#%s.no_shared_item" % how, wit, "a statement of the copy holds the same reader item object as the original")
+                        before = str(tree)
+                        for n in all_nodes(c):
+                            it = getattr(n, "item", None)
+                            if it is not None and hasattr(it, "label"):
+                                if getattr(it, "label", None) is not None:
+                                    it.label = it.label + 1000
+                                if getattr(it, "name", None):
+                                    it.name = it.name + "_copy"
+                        if str(tree) != before:
+                            fail("tree#%s.changing_the_copy_leaves_the_original" % how, wit, dict(before=before[:200], after=str(tree)[:200]))
                 if "C01" in only:
                     text = str(tree)
                     try:
